@@ -130,6 +130,10 @@ def validate(run, wd, what):
     for (name, msg, ev, m), p in zip(meta, parsed):
         run.traces += 1
         nfields += sum(len(s) for s in p['subsets'])
+        if p['err'] == 'OutsideWF':
+            # the message enters the region where FM-94 is silent (FM94.OutsideWF): reported, not judged
+            run.notes['corpus_%s_outside_wf' % what] = run.notes.get('corpus_%s_outside_wf' % what, 0) + 1
+            continue
         if p['err']:
             run.violation(('corpus', what, 'spec-cannot-parse', p['err']), '%s: the specification stops with %s' % (name, p['err']),
                           {'kind': 'corpus', 'what': what, 'name': name})
